@@ -38,6 +38,9 @@ type TermSearcher struct {
 	reader      index.TermFieldReader
 	scorer      *scorer.TermQueryScorer
 	tfd         index.TermFieldDoc
+	// min is reported by Min(); it is non-zero only when this searcher
+	// stands in for an optimized disjunction that had a min requirement
+	min int
 }
 
 func NewTermSearcher(ctx context.Context, indexReader index.IndexReader,
@@ -253,7 +256,7 @@ func (s *TermSearcher) Close() error {
 }
 
 func (s *TermSearcher) Min() int {
-	return 0
+	return s.min
 }
 
 func (s *TermSearcher) DocumentMatchPoolSize() int {
